@@ -18,7 +18,9 @@ RULE = ('(a) random compiled-rule records (0-5 symbols, terminals/rules, `_` nam
         'object on 2 random children lists (tokens, trees, None, occasionally ill-typed or of wrong arity) against '
         'Shape/Chain.v and against the independent Shape/Spec.v; (b) the same for the compiled rules of random EBNF '
         'grammars; (c) end to end: random EBNF grammars using ?/!/_ rules, aliases, [..], ?, *, +, ~n..m, groups, '
-        'templates, filtered and kept tokens, and (half of the grammars) symbol / word literals whose auto-names '
+        'templates (plain, `!`, `?`, `_`; instantiated with terminals, rules and - from rules without `!` - string literals that '
+        'also occur in other rules), a shared-literal family (one literal and one terminal used under different markers, EBNF '
+        'operators and as template arguments), filtered and kept tokens, and (half of the grammars) symbol / word literals whose auto-names '
         '(PLUS, MINUS, COMMA, ...) are already owned by a user terminal with another pattern or by an earlier literal, '
         'x keep_all_tokens x maybe_placeholders: the oracle is the meaning of the grammar TEXT (a literal stands for its '
         'own text, a terminal for the pattern written in its definition; token types invented for anonymous literals are '
@@ -493,15 +495,16 @@ def correspond(ctx):
     lalr_ok = 0
     while (done < ngram or lalr_ok < ngram * 0.7) and tried < ngram * 3:
         tried += 1
-        G = sl.gen_grammar(rng)
+        shared = tried % 6 == 0        # every sixth grammar is of the shared-literal family
+        G = sl.gen_shared_literal(rng) if shared else sl.gen_grammar(rng)
         gtext = G.text
         texts = []
         for _ in range(12):
             try:
-                t = sl.gen_text(rng, G)
+                t = sl.gen_text(rng, G, budget=[90] if shared else None)
             except sl.TooDeep:
                 continue
-            if len(t) <= 14 and t not in texts:
+            if len(t) <= (34 if shared else 14) and t not in texts:
                 texts.append(t)
             if len(texts) >= 4:
                 break
